@@ -10,6 +10,9 @@ SuppBasic == << S("cat", "runtime", "-", "-"), S("catlabel", "runtime", "a", "-"
                 S("catf", "runtime", "-", "k2"), S("catf", "runtime", "-", "f1"),
                 \* a label written with a capital letter: label-only suppressions compare it exactly, category-scoped ones lower-cased
                 S("label", "-", "B", "-"), S("catlabel", "runtime", "B", "-"), S("labelf", "-", "B", "f1"), S("catlabel", "runtime", "b", "-") >>
+\* the SAME label suppressed more than once, with different field sets (each registration counts)
+SuppTwice == << S("labelf", "-", "a", "f1"), S("labelf", "-", "a", "f2"), S("labelf", "-", "a", "j1"), S("label", "-", "b", "-"),
+               S("catlabelf", "runtime", "a", "f1"), S("catlabelf", "runtime", "a", "f2") >>
 \* suppressions that name a category by its alias or by its canonical name
 SuppAlias == << S("cat", "parser", "-", "-"), S("cat", "syntax", "-", "-"), S("catlabel", "parser", "a", "-"), S("catf", "parser", "-", "f1") >>
 SuppScore == << S("cat", "runtime", "-", "-"), S("label", "-", "a", "-") >>
